@@ -54,3 +54,10 @@ claim("C10",
       "Decides (a) field correspondence: every scalar destination field of the configuration built by ParseData is computed from exactly the TOML leaf field(s) that must determine it (backward slice over SSA, with control sources at phis), every one of the 37 decoded leaf fields reaches the result, and per analog mapping type the runtime's reads of config.Analog are a subset of the parser's writes; (b) validation before acceptance: notes, controllers, key and analog channel offsets, velocity, default channel, default mapping index are proven within their range at the store (dominating guards), closed vocabularies (action, mapping type, collision mode) are looked up in their Supported* table with that very value, DisallowUnknownFields precedes Decode, every error return hands out the zero Config and configurations are only built by ParseData.",
       COMMON_NOTE + " go-toml's decoding of TOML spellings into the struct is trusted.",
       "per-field backward slicing (taint) over go/ssa against a reviewed correspondence table + interval/guard proofs at store sites + reader/writer set agreement")
+
+claim("C07",
+      "Decides, on every path of the axis handler's cc case, the per-event template that makes 'at most one side non-zero, the side left behind is zeroed' an invariant: each of the four side branches (signed / centred-unsigned x negative / positive) sends the active controller with the deflection magnitude on its own channel, sends an explicit 0 to the opposite controller on the opposite channel unless that controller is already flagged zero, sets that flag, and clears the active side's flag; side selection compares the shaped value with 0 resp. 0.5; the CC-learning gate precedes every send, passes only |value| > 0.5 and comes after the last-value bookkeeping; the flags have no other writer.",
+      COMMON_NOTE, "path-effect enumeration over go/ssa of the handler (value-only diamonds collapsed) matched against a per-side effect template; who-may-write")
+claim("C08",
+      "Decides the region template of the key-emulation branch (<= -0.5: Note On of the negative direction unless tracked and only if a negative note is configured, release positive; (-0.49, 0.49): release both; >= 0.5: mirror image; distinct tracker identifiers), the on/off pairing and tracker-only provenance of AnalogNoteOn/AnalogNoteOff, the affine int transposition with range guard, the release when an axis stops emulating keys, and that the parser fills Note / NoteNeg / Bidirectional from note / note_negative.",
+      COMMON_NOTE, "path-effect enumeration over go/ssa matched against region templates + shared note-lifecycle, arithmetic and field-correspondence rules")
